@@ -6,6 +6,7 @@ import (
 	"testing"
 
 	"github.com/fiorix/go-diameter/v4/diam"
+	"github.com/fiorix/go-diameter/v4/diam/datatype"
 
 	"verifharness/ev"
 	"verifharness/refcodec"
@@ -129,6 +130,14 @@ func TestC16(t *testing.T) {
 			if got := lib2Header(req); got != h2(h) {
 				c.Fail(ev.Sig{"op": "answer-mirror", "field": "request-mutated"}, nil, nil, "Answer() changed the request header: %+v -> %+v", h2(h), got)
 				return
+			}
+			// the application edits the answer it was given (downgrades the result, re-tags the AVP):
+			// that is its own copy - later answers must not be affected
+			if len(ans.AVP) > 0 && r.IntN(2) == 0 {
+				ans.AVP[0].Data = datatype.Unsigned32(5012)
+				if r.IntN(2) == 0 {
+					ans.AVP[0].Code, ans.AVP[0].Flags = 999, 0
+				}
 			}
 			c.Event("answers_checked", 1)
 			if c.WantSample() && k == 0 {
